@@ -235,7 +235,11 @@ def d4(ctx):
                     else:
                         ctx.bad(rule, a, f"{q}: `{callee}` is multiplied repeatedly in a loop; unless it is uncached (psi, overlap, "
                                 "norm_factor) the factors share their contracted indices", fn=f"{mod}:{q}", key=f"{q} repeated {callee}")
-    ctx.floor(rule, "multiplicative accumulations in the derivation layer", n, 2)
+    ctx.floor(rule, "multiplicative accumulations in the derivation layer", n, 0)
+    # the repeated factors are requested afresh for every element of a Taylor term
+    from . import c02
+    c02.taylor_consumer(ctx, rule, "groundstate:GroundState.norm_factor", "overlap")
+    c02.taylor_consumer(ctx, rule, "intermediate_states:IntermediateStates.s_root", "overlap_precursor")
     # cached derivation methods: named indices only for the caller-supplied strings
     for mod in ("groundstate", "intermediate_states", "secular_matrix", "properties"):
         m = ctx.model.module(mod)
@@ -337,6 +341,24 @@ def r19c(ctx):
 
 def c18_ctors():
     return ("AntiSymmetricTensor", "SymmetricTensor", "Amplitude", "NonSymmetricTensor")
+
+
+def r19h(ctx):
+    """look-ups in the registry of intermediates (keyed by default names) use default names"""
+    rule = "R19c"
+    n = 0
+    for ref, fn in ctx.model.all_functions():
+        for c in calls_in(fn, nested=False):
+            if call_name(c) == "get" and U(c.func.value).endswith(".available") and c.args:
+                n += 1
+                a0 = c.args[0]
+                ok = isinstance(a0, ast.Call) and call_name(a0) == "longname" and (
+                    (a0.args and U(a0.args[0]) == "True") or U(kwarg(a0, "use_default_names") or ast.Constant(None)) == "True")
+                ctx.check(rule, c, ok, f"{ref.split(':')[1]}: intermediates looked up by their default long name",
+                          f"`{short(c, 70)}`: the registry of intermediates is keyed by default names; looking up the configured "
+                          "long name misses every intermediate as soon as tensor_names.json renames amplitudes/densities",
+                          fn=ref, key=f"lookup {ref}")
+    ctx.floor(rule, "registry look-ups", n, 3)
 
 
 def r19d(ctx):
@@ -458,6 +480,7 @@ def run(ctx):
         r19g(ctx)
     if ctx.want("R19c"):
         r19c(ctx)
+        r19h(ctx)
     if ctx.want("R19d"):
         r19d(ctx)
     if ctx.want("R19e") or ctx.want("R08c"):
@@ -466,8 +489,7 @@ def run(ctx):
         r19a(ctx)
     if ctx.want("R19b"):
         d4(ctx)
-    if ctx.tier == "thorough":
-        if ctx.want("R19f"):
-            r19f(ctx)
-        if ctx.want("R08d"):
-            c08.r08d(ctx)
+    if ctx.want("R08d"):
+        c08.r08d(ctx)
+    if ctx.want("R19f"):
+        r19f(ctx)
